@@ -8,7 +8,7 @@ for d in ${1:-}*/; do
   n=${d%/}; p=$(python3 -c "import json;print(json.load(open('/verif/seeded/$n/meta.json'))['property'])")
   git -C $R apply /verif/seeded/$n/patch.diff || { echo "$n: patch does not apply"; continue; }
   t0=$(date +%s)
-  (cd /verif && VERIF_REPO=$R VERIF_EVIDENCE_DIR=/tmp/verif-seed-evidence-$p VERIF_NO_TV=1 timeout 1800 /verif/bin/vcheck run $p 2>&1 | grep -a "^VIOLATION" > /tmp/seedrun.$$.$n)
+  (cd /verif && VERIF_REPO=$R VERIF_EVIDENCE_DIR=/tmp/verif-seed-evidence-$p VERIF_OUT_DIR=/tmp/verif-seed-out-$$ VERIF_NO_TV=1 timeout 1800 /verif/bin/vcheck run $p 2>&1 | grep -a "^VIOLATION" > /tmp/seedrun.$$.$n)
   git -C $R checkout -q -- .
   python3 - "$n" /tmp/seedrun.$$.$n $(( $(date +%s)-t0 )) <<'P'
 import json,sys
